@@ -158,9 +158,10 @@ func C09(r *vf.Run) {
 		rom       map[int]*snes.ROM // a ROM object kept alive and re-parsed with different contents
 		prevVer   map[int]int
 		scratch   *snes.Header
+		fixSum    int
 	}
 	newBufs := func(g *vf.Rng) *bufs {
-		b := &bufs{map[int][]byte{}, map[int][]byte{}, map[int]*snes.ROM{}, map[int]int{}, new(snes.Header)}
+		b := &bufs{map[int][]byte{}, map[int][]byte{}, map[int]*snes.ROM{}, map[int]int{}, new(snes.Header), 0}
 		for _, n := range sizes {
 			b.orig[n] = g.Bytes(n)
 			b.img[n] = append([]byte(nil), b.orig[n]...)
@@ -170,6 +171,22 @@ func C09(r *vf.Run) {
 	checkOne := func(raw []byte, size int, bf *bufs, tag string) {
 		img, orig := bf.img[size], bf.orig[size]
 		copy(img[0x7FB0:], raw)
+		sfx := ""
+		if bf.fixSum != 0 {
+			// a well-formed cartridge: complementary checksum pair (1), which is also the image's byte sum (2)
+			sum := uint16(raw[0x2E]) | uint16(raw[0x2F])<<8
+			if bf.fixSum == 2 {
+				img[0x7FDC], img[0x7FDD], img[0x7FDE], img[0x7FDF] = 0xFF, 0xFF, 0, 0
+				sum = 0
+				for _, x := range img {
+					sum += uint16(x)
+				}
+			}
+			raw[0x2E], raw[0x2F], raw[0x2C], raw[0x2D] = byte(sum), byte(sum>>8), byte(^sum), byte(^sum>>8)
+			copy(img[0x7FB0:], raw)
+			sfx = fmt.Sprintf("+sum%d", bf.fixSum)
+			bf.fixSum = 0
+		}
 		copy(orig[0x7FB0:], raw)
 		ver, want := expectHeader(raw)
 		var rom *snes.ROM
@@ -257,7 +274,7 @@ func C09(r *vf.Run) {
 			}
 		}
 		r.Eval(1)
-		r.Cell(fmt.Sprintf("%s:v%d:size%x", tag, ver, size))
+		r.Cell(fmt.Sprintf("%s%s:v%d:size%x", tag, sfx, ver, size))
 	}
 
 	if r.Phase("random-headers") {
@@ -276,6 +293,9 @@ func C09(r *vf.Run) {
 				tag := "rt"
 				if k%2 == 1 {
 					tag = "reuse"
+				}
+				if k%5 == 3 {
+					bf.fixSum = 1 + (k/5)%2
 				}
 				checkOne(raw, size, bf, tag)
 				if i < 3 {
